@@ -473,6 +473,7 @@ fn numbers(d: &Value) -> (Vec<i64>, Vec<i64>, i64) {
 }
 
 fn case_events(d: &Value) -> Vec<Value> {
+    let _open = egv::rec::watch(d); // worker threads run library code before Rec::begin sees the case
     let mut out = vec![];
     match d["kind"].as_str().unwrap() {
         "prim" => prim_calls(d, &mut out),
